@@ -414,4 +414,119 @@ def runOps (ops : List Op) : ACfg := runOpsFrom .init ops
 /-- the element `e` after the operations `ops` were applied to it -/
 def E.ofHist (ops : List Op) (e : E) : E := .act (runOps ops).acts (runOps ops).cdt e
 
+/-! ### `_parseNoCache` with its two branches (core.py:820-912)
+
+`if debugging or self.failAction:` — the branch with the debug callbacks and the fail action — and the plain `else:`
+branch, each transcribed with its own assignment of the locals `pre_loc`, `tokens_start`; then the common tail (action
+loop, `debug_match`).  The element is abstract: `pre` = `self.preParse(instring, ·)` (ignorables and whitespace),
+`impl` = `self.parseImpl(instring, ·, do_actions)`; tokens are identified by a number.  The debug callbacks and the
+fail action are taken to return normally. -/
+
+inductive ImplOut where
+  | ok (endLoc toks : Nat)
+  | fail | fatal | err
+  | indexErr                      -- IndexError out of parseImpl
+  deriving DecidableEq, Repr, Inhabited
+
+inductive DRes where
+  | ok (loc toks : Nat)
+  | fail | fatal | err
+  deriving DecidableEq, Repr, Inhabited
+
+inductive DEv where
+  | act (id loc : Nat)            -- parse action / condition `id` called with location `loc`
+  | dbgTry (loc : Nat)            -- debugActions.debug_try(instring, loc, self, False)
+  | dbgMatch (start endLoc : Nat) -- debugActions.debug_match(instring, start, endLoc, self, toks, False)
+  | dbgFail (loc : Nat)           -- debugActions.debug_fail(instring, loc, self, err, False)
+  | failAct (loc : Nat)           -- self.failAction(instring, loc, self, err)
+  deriving DecidableEq, Repr, Inhabited
+
+structure DElem where
+  pre : Nat → Nat
+  callPre : Bool                  -- self.callPreparse
+  mayIndexError : Bool
+  impl : Nat → Bool → ImplOut
+  acts : List Act
+  cdt : Bool
+  debug : Bool                    -- self.debug
+  dTry : Bool                     -- self.debugActions.debug_try is set (… _match, … _fail)
+  dMatch : Bool
+  dFail : Bool
+  failAction : Bool               -- self.failAction is set
+
+/-- core.py:837-843 / 861-867: `if self.mayIndexError or pre_loc >= len_instring: try … except IndexError: raise
+    ParseException` else the bare call -/
+def implGuard (len : Nat) (x : DElem) (preLoc : Nat) (da : Bool) : DRes :=
+  match x.impl preLoc da with
+  | .ok e t => .ok e t
+  | .fail => .fail
+  | .fatal => .fatal
+  | .err => .err
+  | .indexErr => if x.mayIndexError || decide (preLoc ≥ len) then .fail else .err
+
+/-- the locals after the first part: `tokens_start`, and `(loc, tokens)` or the exception in flight -/
+structure Head where
+  tokensStart : Nat
+  res : DRes
+  evs : List DEv
+
+/-- core.py:826-854, the branch `if debugging or self.failAction:` -/
+def headDebug (len : Nat) (x : DElem) (loc : Nat) (da cp : Bool) : Head :=
+  let preLoc := if cp && x.callPre then x.pre loc else loc            -- 829-832
+  let tokensStart := preLoc                                           -- 833
+  let e1 := if x.dTry then [DEv.dbgTry tokensStart] else []           -- 834-835
+  match implGuard len x preLoc da with                                -- 836-843
+  | .ok e t => ⟨tokensStart, .ok e t, e1⟩
+  | r =>                                                              -- except Exception as err: 844-853
+      ⟨tokensStart, r, e1 ++ (if x.dFail then [DEv.dbgFail tokensStart] else [])
+                          ++ (if x.failAction then [DEv.failAct tokensStart] else [])⟩
+
+/-- core.py:855-867, the plain branch -/
+def headPlain (len : Nat) (x : DElem) (loc : Nat) (da cp : Bool) : Head :=
+  let preLoc := if cp && x.callPre then x.pre loc else loc            -- 856-859
+  let tokensStart := preLoc                                           -- 860
+  ⟨tokensStart, implGuard len x preLoc da, []⟩
+
+/-- `for fn in self.parseAction: tokens = fn(instring, tokens_start, ret_tokens)`; the first exception stops -/
+def fireD (start endLoc toks : Nat) : List Act → DRes × List DEv
+  | [] => (.ok endLoc toks, [])
+  | a :: as =>
+      match a.kind with
+      | .keep => let r := fireD start endLoc toks as; (r.1, DEv.act a.id start :: r.2)
+      | .fail => (.fail, [DEv.act a.id start])
+      | .fatal => (.fatal, [DEv.act a.id start])
+      | .err => (.err, [DEv.act a.id start])
+
+/-- the common tail, core.py:869-921: `postParse`, the action loop and `debug_match` -/
+def actionTail (x : DElem) (h : Head) (da : Bool) : DRes × List DEv :=
+  match h.res with
+  | .ok e t =>
+      -- `if self.parseAction and (do_actions or self.callDuringTry):`
+      let a : DRes × List DEv :=
+        if !x.acts.isEmpty && (da || x.cdt) then
+          let q := fireD h.tokensStart e t x.acts
+          if x.debug then                                             -- try … except Exception: debug_fail; raise
+            match q.1 with
+            | .ok _ _ => q
+            | r => (r, q.2 ++ (if x.dFail then [DEv.dbgFail h.tokensStart] else []))
+          else q
+        else (.ok e t, [])
+      match a.1 with
+      | .ok e' t' =>
+          (.ok e' t', h.evs ++ a.2 ++ (if x.debug && x.dMatch then [DEv.dbgMatch h.tokensStart e'] else []))
+      | r => (r, h.evs ++ a.2)
+  | r => (r, h.evs)
+
+/-- `_parseNoCache(instring, loc, do_actions, callPreParse)`, core.py:820-921 -/
+def parseNoCache (len : Nat) (x : DElem) (loc : Nat) (da cp : Bool) : DRes × List DEv :=
+  actionTail x (if x.debug || x.failAction then headDebug len x loc da cp else headPlain len x loc da cp) da
+
+/-- the same element without `set_debug` / `set_debug_actions` / `set_fail_action` -/
+def DElem.plain (x : DElem) : DElem :=
+  { x with debug := false, dTry := false, dMatch := false, dFail := false, failAction := false }
+
+def DEv.isAct : DEv → Bool
+  | .act _ _ => true
+  | _ => false
+
 end PP.ActionGate
